@@ -58,8 +58,8 @@ static void disasm_pdp8_opr(char *instruction, int length, int opcode)
       if ((table_pdp8[n].opcode & ~mask) == (opcode & ~mask) &&
           (table_pdp8[n].opcode & x) == table_pdp8[n].opcode)
         {
-          int n = strlen(instruction);
-          snprintf(instruction + n, length - n,
+          int len = strlen(instruction);
+          snprintf(instruction + len, length - len,
                   "%s ", table_pdp8[n].instr);
           x &= ~(table_pdp8[n].opcode & mask);
           break;
